@@ -44,8 +44,8 @@ func (n nm) str(ok string) string {
 type call struct {
 	Kind   string `json:"kind"` // reset up checks block seq action plan
 	Lab    int    `json:"lab,omitempty"`
-	Nil    bool   `json:"nil,omitempty"`   // the pointer argument is nil
-	Name   nm     `json:"name,omitempty"`  // name / descr / plugin of the argument
+	Nil    bool   `json:"nil,omitempty"`  // the pointer argument is nil
+	Name   nm     `json:"name,omitempty"` // name / descr / plugin of the argument
 	Descr  nm     `json:"descr,omitempty"`
 	Plugin nm     `json:"plugin,omitempty"`
 	CType  int    `json:"ctype,omitempty"` // builder.ChecksType value passed (1..5 valid)
@@ -400,58 +400,98 @@ func (r *runner) one(i int, f func() (error, *workflow.Plan), after func() error
 	return o, p
 }
 
+type emittedPlan struct {
+	at   int
+	p    *workflow.Plan
+	term string
+}
+
+// live is one builder being driven through its session step by step (step 0 = New), so that several
+// builders can be alive at the same time with their calls interleaved.
+type live struct {
+	r    *runner
+	s    session
+	b    *builder.BuildPlan
+	so   sessionObs
+	next int
+	ems  []emittedPlan
+	// plans emitted by ANY builder of the same case: a plan pointer must be emitted once, by one builder
+	emittedBy map[*workflow.Plan]int
+	me        int
+}
+
+func newLive(s session, me int, emittedBy map[*workflow.Plan]int) *live {
+	return &live{r: newRunner(), s: s, me: me, emittedBy: emittedBy}
+}
+
+func (l *live) done() bool { return l.next > len(l.s.Calls) || (l.next > 0 && l.b == nil) }
+
+func (l *live) step() {
+	if l.done() {
+		return
+	}
+	i := l.next
+	l.next++
+	if i == 0 {
+		o, _ := l.r.one(0, func() (error, *workflow.Plan) {
+			name, descr, opts := l.r.resetArgs(l.s.New)
+			nb, err := builder.New(name, descr, opts...)
+			l.b = nb
+			return err, nil
+		}, func() error { return nil })
+		l.so.obs = append(l.so.obs, o)
+		if o.Ret != nil {
+			l.so.firstErr = "new:" + o.Ret.Class
+		}
+		return
+	}
+	c := l.s.Calls[i-1]
+	o, p := l.r.one(i, func() (error, *workflow.Plan) { return l.r.apply(l.b, c) }, l.b.Err)
+	if p != nil {
+		o.Plan = l.r.planTerm(p)
+		if who, seen := l.emittedBy[p]; seen {
+			// the very same *workflow.Plan handed out a second time (by this or by another builder)
+			o.Plan = core.App("Build_tplan", core.Nat(badLab-2), "None", "None", "None", "None", "None", "None", "[]")
+			l.so.note += fmt.Sprintf("plan emitted at call %d is the pointer builder %d already emitted; ", i, who)
+		}
+		l.emittedBy[p] = l.me
+		l.ems = append(l.ems, emittedPlan{i, p, o.Plan})
+		l.so.emitted++
+		if n := countObjects(p); n > l.so.objects {
+			l.so.objects = n
+		}
+	}
+	if l.so.firstErr == "" {
+		switch {
+		case o.Panic != "":
+			l.so.firstErr = "panic"
+		case o.Ret != nil:
+			l.so.firstErr = o.Ret.Class
+		}
+	}
+	l.so.obs = append(l.so.obs, o)
+}
+
+// finish: an emitted plan must not change afterwards: report it as it looks at the end of the session
+func (l *live) finish() sessionObs {
+	for _, e := range l.ems {
+		if strings.Contains(e.term, fmt.Sprintf("Build_tplan %d ", badLab-2)) {
+			continue
+		}
+		if t := l.r.planTerm(e.p); t != e.term {
+			l.so.obs[e.at].Plan = t
+			l.so.note += fmt.Sprintf("plan emitted at call %d changed afterwards; ", e.at)
+		}
+	}
+	return l.so
+}
+
 func runSession(s session) sessionObs {
-	r := newRunner()
-	var so sessionObs
-	var b *builder.BuildPlan
-	o, _ := r.one(0, func() (error, *workflow.Plan) {
-		name, descr, opts := r.resetArgs(s.New)
-		nb, err := builder.New(name, descr, opts...)
-		b = nb
-		return err, nil
-	}, func() error { return nil })
-	so.obs = append(so.obs, o)
-	if o.Ret != nil {
-		so.firstErr = "new:" + o.Ret.Class
+	l := newLive(s, 0, map[*workflow.Plan]int{})
+	for !l.done() {
+		l.step()
 	}
-	if b == nil {
-		return so
-	}
-	type emittedPlan struct {
-		at   int
-		p    *workflow.Plan
-		term string
-	}
-	var ems []emittedPlan
-	for k, c := range s.Calls {
-		i := k + 1
-		o, p := r.one(i, func() (error, *workflow.Plan) { return r.apply(b, c) }, b.Err)
-		if p != nil {
-			o.Plan = r.planTerm(p)
-			ems = append(ems, emittedPlan{i, p, o.Plan})
-			so.emitted++
-			if n := countObjects(p); n > so.objects {
-				so.objects = n
-			}
-		}
-		if so.firstErr == "" {
-			switch {
-			case o.Panic != "":
-				so.firstErr = "panic"
-			case o.Ret != nil:
-				so.firstErr = o.Ret.Class
-			}
-		}
-		so.obs = append(so.obs, o)
-	}
-	// an emitted plan must not change afterwards: report it as it looks at the end of the session
-	for _, e := range ems {
-		if t := r.planTerm(e.p); t != e.term {
-			so.obs[e.at].Plan = t
-			so.note += fmt.Sprintf("plan emitted at call %d changed afterwards; ", e.at)
-		}
-	}
-	return so
+	return l.finish()
 }
 
 func errCoq(e *errObs) string { return core.Pair(e.Class, core.Nat(e.Origin)) }
@@ -538,8 +578,12 @@ func (g *gen) unused(used map[int]bool) (int, bool) {
 	return free[g.r.Intn(len(free))], true
 }
 
-func (g *gen) mkChecks(t int) call { return call{Kind: "checks", Lab: g.next(), CType: t, Acts: g.pre(false)} }
-func (g *gen) mkBlock() call      { return call{Kind: "block", Lab: g.next(), Name: g.oddName(), Descr: g.oddName()} }
+func (g *gen) mkChecks(t int) call {
+	return call{Kind: "checks", Lab: g.next(), CType: t, Acts: g.pre(false)}
+}
+func (g *gen) mkBlock() call {
+	return call{Kind: "block", Lab: g.next(), Name: g.oddName(), Descr: g.oddName()}
+}
 func (g *gen) mkSeq() call {
 	return call{Kind: "seq", Lab: g.next(), Name: g.oddName(), Descr: g.oddName(), Acts: g.pre(true)}
 }
@@ -956,40 +1000,165 @@ func main() {
 			s, injected, second, nInjected = g.session(family)
 		}
 		so := runSession(s)
-		callTerms := make([]string, len(s.Calls))
-		kinds := map[string]int{}
-		for j, c := range s.Calls {
-			callTerms[j] = c.coq()
-			kinds[c.Kind]++
+		putCase(w, fmt.Sprintf("builder-%d", i), family, s, so,
+			map[string]any{"injected": injected, "second_misuse": second, "misuses_injected": nInjected})
+	}
+	// several builders alive at once, their calls interleaved: each is compared with the model of ITS OWN
+	// call list (builders are independent: that is the specification)
+	for i, m := range multis(root.Fork(0xb111d), *n/12) {
+		emittedBy := map[*workflow.Plan]int{}
+		lives := make([]*live, len(m.sessions))
+		for b, s := range m.sessions {
+			lives[b] = newLive(s, b, emittedBy)
 		}
-		obsTerms := make([]string, len(so.obs))
-		panicked := ""
-		for j, o := range so.obs {
-			obsTerms[j] = o.coq()
-			if o.Panic != "" && panicked == "" {
-				panicked = fmt.Sprintf("call %d: %s", j, o.Panic)
+		for _, b := range m.schedule {
+			lives[b].step()
+		}
+		for b, l := range lives {
+			for !l.done() { // whatever the schedule left over
+				l.step()
+			}
+			putCase(w, fmt.Sprintf("builder-multi-%d-%c", i, 'a'+b), "multi", m.sessions[b], l.finish(),
+				map[string]any{"injected": "multi:" + m.name, "second_misuse": "", "misuses_injected": 0, "builders": len(lives),
+					"schedule": m.schedule})
+		}
+	}
+}
+
+func putCase(w *core.Writer, id, family string, s session, so sessionObs, dist map[string]any) {
+	callTerms := make([]string, len(s.Calls))
+	kinds := map[string]int{}
+	for j, c := range s.Calls {
+		callTerms[j] = c.coq()
+		kinds[c.Kind]++
+	}
+	obsTerms := make([]string, len(so.obs))
+	panicked := ""
+	for j, o := range so.obs {
+		obsTerms[j] = o.coq()
+		if o.Panic != "" && panicked == "" {
+			panicked = fmt.Sprintf("call %d: %s", j, o.Panic)
+		}
+	}
+	term := core.Pair(core.Pair(pargCoq(s.New), core.List(callTerms)), core.List(obsTerms))
+	first := so.firstErr
+	if first == "" {
+		first = "none"
+	}
+	dist["len"], dist["first_error"], dist["emitted"], dist["objects"], dist["call_kinds"] = len(s.Calls), first, so.emitted, so.objects, kinds
+	c := core.Case{
+		ID:         id,
+		Kind:       family,
+		Coq:        term,
+		Nontrivial: len(s.Calls) >= 3 && (so.objects >= 4 || so.firstErr != ""),
+		Hash:       core.Hash(term),
+		Dist:       dist,
+		Input:      s,
+		Observed:   so.obs,
+		Note:       so.note,
+	}
+	if panicked != "" {
+		c.Note = "panic: " + panicked + " " + c.Note
+	}
+	w.Put(c)
+}
+
+type multi struct {
+	name     string
+	sessions []session
+	schedule []int // which builder makes its next call (its first call is New)
+}
+
+// multis: (1) exhaustively, the 6 possible orders of the four events
+//
+//	E = builder a emits (its first Plan()), R = a is Reset afterwards, N = builder b is created, A = b's first Add*
+//
+// (E before R, N before A), each for 3 session shapes; before the first event a runs up to E, after the last one the
+// remaining calls alternate.  (2) random: 2-3 ordinary sessions (with Plan()/Reset in the middle, some with a
+// misuse), uniformly random interleaving.
+func multis(r *core.Rand, nRandom int) (out []multi) {
+	orders := [][]string{{"E", "R", "N", "A"}, {"E", "N", "R", "A"}, {"E", "N", "A", "R"}, {"N", "E", "R", "A"}, {"N", "E", "A", "R"}, {"N", "A", "E", "R"}}
+	for shape := 0; shape < 3; shape++ {
+		for oi, order := range orders {
+			g := &gen{r: r.Fork(uint64(shape*10 + oi))}
+			mk := func(n1, n2 int) session {
+				s := session{New: g.mkReset(true)}
+				c1, _, _ := g.epoch(n1)
+				s.Calls = append(append(s.Calls, c1...), call{Kind: "plan"})
+				if n2 > 0 {
+					s.Calls = append(s.Calls, g.mkReset(true))
+					c2, _, _ := g.epoch(n2)
+					s.Calls = append(append(s.Calls, c2...), call{Kind: "plan"})
+				}
+				return s
+			}
+			a, b := mk(2+2*shape, 3+shape), mk(3+2*shape, shape)
+			ev := map[string][2]int{"N": {1, 0}, "A": {1, 1}} // event -> builder, step index
+			for k, c := range a.Calls {
+				if c.Kind == "plan" {
+					if _, ok := ev["E"]; !ok {
+						ev["E"] = [2]int{0, k + 1}
+					}
+				}
+				if c.Kind == "reset" {
+					ev["R"] = [2]int{0, k + 1}
+				}
+			}
+			pos := []int{0, 0}
+			var sched []int
+			upto := func(bi, step int) { // run builder bi up to and including its step
+				for pos[bi] <= step {
+					sched = append(sched, bi)
+					pos[bi]++
+				}
+			}
+			upto(0, ev["E"][1]-1)
+			for _, e := range order {
+				upto(ev[e][0], ev[e][1])
+			}
+			for pos[0] <= len(a.Calls) || pos[1] <= len(b.Calls) {
+				for bi, s := range []session{a, b} {
+					if pos[bi] <= len(s.Calls) {
+						sched = append(sched, bi)
+						pos[bi]++
+					}
+				}
+			}
+			out = append(out, multi{name: "order-" + strings.Join(order, ""), sessions: []session{a, b}, schedule: sched})
+		}
+	}
+	for i := 0; i < nRandom; i++ {
+		g := &gen{r: r.Fork(uint64(1000 + i))}
+		nb := 2 + g.r.Intn(2)
+		m := multi{name: fmt.Sprintf("random-%d-builders", nb)}
+		var left []int
+		for b := 0; b < nb; b++ {
+			fam := "valid"
+			if g.r.Chance(0.3) {
+				fam = "inject"
+			}
+			s, _, _, _ := g.session(fam)
+			m.sessions = append(m.sessions, s)
+			left = append(left, len(s.Calls)+1)
+		}
+		for {
+			var alive []int
+			for b, n := range left {
+				if n > 0 {
+					alive = append(alive, b)
+				}
+			}
+			if len(alive) == 0 {
+				break
+			}
+			b := alive[g.r.Intn(len(alive))]
+			// runs of 1-4 calls of the same builder
+			for k := 1 + g.r.Intn(4); k > 0 && left[b] > 0; k-- {
+				m.schedule = append(m.schedule, b)
+				left[b]--
 			}
 		}
-		term := core.Pair(core.Pair(pargCoq(s.New), core.List(callTerms)), core.List(obsTerms))
-		first := so.firstErr
-		if first == "" {
-			first = "none"
-		}
-		c := core.Case{
-			ID:         fmt.Sprintf("builder-%d", i),
-			Kind:       family,
-			Coq:        term,
-			Nontrivial: len(s.Calls) >= 3 && (so.objects >= 4 || so.firstErr != ""),
-			Hash:       core.Hash(term),
-			Dist: map[string]any{"len": len(s.Calls), "injected": injected, "second_misuse": second, "misuses_injected": nInjected, "first_error": first, "emitted": so.emitted,
-				"objects": so.objects, "call_kinds": kinds},
-			Input:    s,
-			Observed: so.obs,
-			Note:     so.note,
-		}
-		if panicked != "" {
-			c.Note = "panic: " + panicked + " " + c.Note
-		}
-		w.Put(c)
+		out = append(out, m)
 	}
+	return out
 }
